@@ -15,7 +15,9 @@ EXTENDS Naturals, Sequences, FiniteSets, TLC, Json
 Fix == [ c_fun |-> [scope |-> 0, origin |-> 1], c_cls |-> [scope |-> 1, origin |-> 1], c_mod |-> [scope |-> 2, origin |-> 1],
          c_pkg |-> [scope |-> 3, origin |-> 1], c_ses |-> [scope |-> 4, origin |-> 1],
          local_fx |-> [scope |-> 0, origin |-> 0], local_ses |-> [scope |-> 4, origin |-> 0],
-         tp_fx |-> [scope |-> 0, origin |-> 3], tp_ses |-> [scope |-> 4, origin |-> 3] ]
+         \* wp_fx: workspace plugin (editable install inside the workspace); tp_fx is provided by the workspace plugin AND by
+         \* the installed third-party plugin: the workspace plugin's definition is the visible one, offered once
+         wp_fx |-> [scope |-> 0, origin |-> 2], tp_fx |-> [scope |-> 0, origin |-> 2], tp_ses |-> [scope |-> 4, origin |-> 3] ]
 Names == DOMAIN Fix
 
 Roles == {"module_level", "fixture_decorator", "usefixtures_decorator", "parametrize_decorator", "pytestmark_line",
